@@ -116,7 +116,7 @@ class Check(object):
         what : one-line human description
         case : JSON-able dict sufficient to re-run exactly this case (--replay)
         """
-        if not self._cleaned and self.replay_only is None:
+        if not self._cleaned and self.replay_only is None and not os.environ.get('VERIF_NO_EVIDENCE'):
             # replay files of earlier runs of this property are obsolete
             import glob
             for old in glob.glob(os.path.join(REPLAY, '%s-*.json' % self.prop)):
@@ -131,6 +131,8 @@ class Check(object):
         h = hashlib.sha1(json.dumps([sig, _jsonable(case)], sort_keys=True).encode()).hexdigest()[:12]
         path = os.path.join(REPLAY, '%s-%s.json' % (self.prop, h))
         seen = [v for v in self.violations if v[0] == sig]
+        if os.environ.get('VERIF_NO_EVIDENCE'):
+            path = os.path.join('/tmp', os.path.basename(path))
         if len(seen) < 3 and self.replay_only is None:
             os.makedirs(REPLAY, exist_ok=True)
             with open(path, 'w') as f:
@@ -157,7 +159,7 @@ class Check(object):
             print('  signature: %s' % sig)
             print('  what: %s' % what)
         n_unlisted = len(self.violations)
-        if self.replay_only is None:
+        if self.replay_only is None and not os.environ.get('VERIF_NO_EVIDENCE'):
             self.write_evidence(wall, n_unlisted)
         print('%s %s: states=%d transitions=%d replayed=%d traces=%d events=%d violations=%d known=%d wall=%.1fs'
               % (self.prop, self.tier, self.states, self.transitions, self.replayed, self.traces,
